@@ -170,7 +170,7 @@ func (e *env) leave(c *call, r gateRes) {
 	if c.ctx != nil && e.sc.Kind == "timed" {
 		for _, ft := range e.failTimes {
 			if ft.Before(c.endTime) && c.ctx.Err() == nil {
-				e.viol("not-cancelled", fmt.Sprintf("call %d ended at %v with a live context although another call had returned an error at %v", c.idx, c.endTime.UnixMilli(), ft.UnixMilli()), nil)
+				e.viol("not-cancelled", fmt.Sprintf("call %d ended at %v with a live context although another call had returned an error at %v", c.idx, c.endTime.UnixMilli(), ft.UnixMilli()), map[string]interface{}{"at": "return-of-call"})
 				break
 			}
 		}
@@ -345,7 +345,7 @@ func (e *env) quiescentMonitors() {
 		if failed {
 			for _, c := range e.calls {
 				if !c.ended && c.ctx.Err() == nil {
-					e.viol("not-cancelled", fmt.Sprintf("a call returned an error but the context handed to running call %d is still live at quiescence", c.idx), nil)
+					e.viol("not-cancelled", fmt.Sprintf("a call returned an error but the context handed to running call %d is still live at quiescence", c.idx), map[string]interface{}{"at": "quiescence"})
 					break
 				}
 			}
